@@ -866,7 +866,16 @@ func (chain *Chain) abandonCosiSnapshot(s *common.Snapshot) {
 // transaction immediately eligible for another owner/proposal.
 func (chain *Chain) retryCosiSnapshot(s *common.Snapshot) {
 	chain.abandonCosiSnapshot(s)
-	chain.node.requeueTransactions(s.Transactions)
+	retry := make([]crypto.Hash, 0, len(s.Transactions))
+	for _, tx := range s.Transactions {
+		// owned by a later proposal that is still aggregating: that proposal
+		// requeues the transaction when it is retired itself
+		if v := chain.CosiVerifiers[tx]; v != nil && chain.CosiAggregators[v.Snapshot.Hash] != nil {
+			continue
+		}
+		retry = append(retry, tx)
+	}
+	chain.node.requeueTransactions(retry)
 }
 
 // resetCosiStateForNewRound retires old-round proposals that cannot complete
